@@ -203,7 +203,9 @@ inductive Tr where
   | call (h : HRef) (data : Option Nat) (s : Sig)
   | dispatched (s : Sig) (n : Nat)              -- dispatch of `s` complete after `n` handlers
   | exit | forceQuit | kill
-  | openLevel (q : Nat) | closeLevel (q : Nat)
+  | openLevel (q : Nat) (runLoop : Bool)         -- execute_new_loop created level `q`; `_run_loop` at that moment
+  | closeLevel (q : Nat)                         -- close_loop popped level `q`
+  | loopReturn (q : Nat)                         -- the `_mainloop` activation serving level `q` left its loop (execute_new_loop / run is about to return)
   | closeReq (runLoop : Bool) (pending : Nat)    -- close_loop called: `_run_loop` and the number of signals pending in the closing level
   | waitBegin (c : Cls) (t : Nat) | waitEnd (c : Cls) (t : Nat) (released : Bool)
   | procBegin | procEnd
@@ -223,7 +225,9 @@ inductive UAction where
 inductive Instr where
   | act (a : Act)
   | apprun | catchExit | quitCb
-  | mainCheck | restoreRun | loopCheck | getDispatch
+  /-- `mainCheck q`: the `while self._run_loop` test of the `_mainloop` activation that serves level `q` (the queue object it was
+  started for; a ghost parameter: it has no influence on the behaviour) -/
+  | mainCheck (q : Nat) | restoreRun | loopCheck | getDispatch
   | processSignal (s : Sig) | dispatch (s : Sig) (i : Nat) | catchHandler | kill (s : Sig)
   | callH (h : HRef) (data : Option Nat) (s : Sig) | hret (hid : Nat)
   | note (what : String)
@@ -480,14 +484,14 @@ def step (P : Prog) (c0 : Cfg) : Except (Outcome × Cfg) Cfg :=
     | .act a => doAct c a
     | .apprun =>
       if ¬ P.runEmpty ∧ c.A.stack = [] then .error (.raised "NothingScheduled", c)
-      else .ok (push { c with L := { c.L with forceQuit := false, runLoop := true } } [.mainCheck, .catchExit, .quitCb])
+      else .ok (push { c with L := { c.L with forceQuit := false, runLoop := true } } [.mainCheck 0, .catchExit, .quitCb])
     | .catchExit => .ok c
     | .quitCb =>
       match c.L.quitCb with
       | some d => .ok (c.emit P (.quitcb d))
       | none => .ok c
-    | .mainCheck =>
-      if c.L.runLoop then .ok (push c [.loopCheck, .mainCheck]) else .ok (push c [.restoreRun])
+    | .mainCheck q =>
+      if c.L.runLoop then .ok (push c [.loopCheck, .mainCheck q]) else .ok (push (c.trace (.loopReturn q)) [.restoreRun])
     | .restoreRun =>
       if c.L.forceQuit then .ok c else .ok { c with L := { c.L with runLoop := true } }
     | .loopCheck =>
@@ -557,7 +561,7 @@ def step (P : Prog) (c0 : Cfg) : Except (Outcome × Cfg) Cfg :=
       else
         let q := c.L.queues.length
         let c := { c with L := { c.L with queues := c.L.queues ++ [({} : EQueue)], active := q, levels := c.L.levels ++ [q] } }
-        .ok (push ((c.trace (.openLevel q)).enqueue s) [.mainCheck])
+        .ok (push ((c.trace (.openLevel q c0.L.runLoop)).enqueue s) [.mainCheck q])
     | .closeLoop =>
       .ok (push ((c.trace (.closeReq c.L.runLoop c.L.activeQ.entries.length)).trace .procBegin) [.procIter none, .popLevel])
     | .popLevel =>
